@@ -21,7 +21,7 @@ PID = "C33"
 LEVEL = "translation_validation"
 LEAN = ["SaVerif.Props.C33"]
 META = {
-    "text": "A hand-transcribed Lean model of the Session/SessionTransaction snapshot machinery (M-SESS: _take_snapshot/_restore_snapshot/_remove_snapshot, commit/rollback/close of the transaction stack, _register_persistent/_register_altered/_remove_newly_deleted, _expunge_states, reduced flush over one table with a SAVEPOINT stack) is compared step by step with a REAL Session on SQLite (expire_on_commit on and off): lifecycle state, new/dirty/deleted membership, identity key and loaded attribute values of every object, rows seen by the session's connection and by others. The property itself is checked by an independent reference model (rows + per-object state with a snapshot per scope) and a consistency predicate (persistent objects have a row, loaded non-dirty values equal it, deleted objects have none). Lean theorems: (session_rows_invariant, by induction over EVERY history incl. out-of-order handle operations) the transaction stack is always savepoints-on-one-root and whenever no transaction is left the session's connection sees exactly the committed rows (session_end_states: Session.commit()/rollback() always reach that state); for ALL model states: a root rollback leaves no transaction, the committed rows and NO loaded value or pending change on any identity-map object (root_rollback_expires_all); a savepoint rollback restores exactly the rows of the SAVEPOINT and pops exactly that transaction (nested_rollback_restores_rows); evaluated coherence of long innermost-first histories; three counterexample theorems.",
+    "text": "A hand-transcribed Lean model of the Session/SessionTransaction snapshot machinery (M-SESS: _take_snapshot/_restore_snapshot/_remove_snapshot, commit/rollback/close of the transaction stack, _register_persistent/_register_altered/_remove_newly_deleted, _expunge_states, reduced flush over one table with a SAVEPOINT stack) is compared step by step with a REAL Session on SQLite (expire_on_commit on and off, Session(autoflush=True|False), no_autoflush blocks): lifecycle state, new/dirty/deleted membership, identity key and loaded attribute values of every object, rows seen by the session's connection and by others. The property itself is checked by an independent reference model (rows + per-object state with a snapshot per scope) and a consistency predicate (persistent objects have a row, loaded non-dirty values equal it, deleted objects have none). Lean theorems: (session_rows_invariant, by induction over EVERY history incl. out-of-order handle operations) the transaction stack is always savepoints-on-one-root and whenever no transaction is left the session's connection sees exactly the committed rows (session_end_states: Session.commit()/rollback() always reach that state); (begin_nested_ignores_autoflush, savepoint_scope_starts_empty, flushObj_outer_untouched) begin_nested() writes the enclosing scope's pending work BEFORE the SAVEPOINT whatever the autoflush setting, the new savepoint transaction starts with nothing accounted to it, and a flush registers objects with the innermost transaction only; for ALL model states: a root rollback leaves no transaction, the committed rows and NO loaded value or pending change on any identity-map object (root_rollback_expires_all); a savepoint rollback restores exactly the rows of the SAVEPOINT and pops exactly that transaction (nested_rollback_restores_rows); evaluated coherence of long innermost-first histories; three counterexample theorems.",
     "note": "The full statement (coherence after every step of every innermost-first history) is NOT proved in Lean; it is carried by the differential run and the oracle. It is false without restrictions - three genuine defects found and replayed on the real code: rolling back an OUTER SessionTransaction while an inner savepoint is open (e.g. an exception leaving `with session.begin():` with a begin_nested() still open) closes the inner one without restoring its snapshot (outer_rollback_counterexample, known finding outer-rollback-skips-inner-snapshot, F20); a primary key switched in the transaction and again inside a released savepoint is restored to the intermediate key by a later rollback (key_switch_merge_counterexample, nested-key-switch-loses-original-key, F21); an object added and key-switched in a rolled-back transaction ends up detached instead of transient (rolled_back_new_object_counterexample, F23). Modelled-not-verified: the unit of work is reduced to one table and single-row INSERT/UPDATE/DELETE; flush failures, relationships, cascades, expunge/merge/refresh APIs and events are not modelled; SQLite via sqlite3 autocommit=False.",
     "technique": "per-step differential correspondence of a hand-transcribed Lean model against a real Session on SQLite + reference-model oracle; Lean theorems on the scope-ending functions for all states and counterexamples by evaluation",
     "design_ref": "DESIGN.md §3 C30-C33 (C33)",
@@ -36,7 +36,8 @@ KEY_F23 = "rolled-back-new-object-with-key-switch-left-detached"
 class Ref:
     """rows + per-object (status, key) with one snapshot per open transaction scope"""
 
-    def __init__(self):
+    def __init__(self, autoflush=True):
+        self.autoflush = autoflush
         self.committed = {}
         self.rows = {}
         self.objs = []  # dict(status, key, pk, v, dirty, marked)
@@ -115,7 +116,7 @@ class Ref:
                 return None
             if ob["status"] == "S":
                 self._begin_root()
-                if t0 == "K" and not loaded:
+                if t0 == "K" and not loaded and self.autoflush:
                     # the old primary key must be loaded first: SELECT, preceded by autoflush
                     self._flush()
                 ob["dirty"] = True
@@ -134,7 +135,8 @@ class Ref:
                 return None
             if ob["status"] == "S" and not loaded:
                 self._begin_root()
-                self._flush()  # autoflush before the SELECT
+                if self.autoflush:
+                    self._flush()  # autoflush before the SELECT
             return {"raises": False}
         if tok == "F":
             if any(o["status"] == "P" or (o["status"] == "S" and (o["dirty"] or o["marked"])) for o in self.objs):
@@ -146,7 +148,12 @@ class Ref:
                 return {"raises": True}
             self._begin_root()
             return {"raises": False}
+        if tok in ("Z0", "Z1"):
+            self.autoflush = tok == "Z1"
+            return {"raises": False}
         if tok == "n":
+            # work pending in the enclosing scope belongs to the enclosing scope: it is
+            # written before the SAVEPOINT whatever the autoflush setting is
             self._begin_root()
             self._flush()
             self.scopes.append({"h": self.nh, "rows": dict(self.rows), "objs": [(o["status"], o["key"]) for o in self.objs], "nested": True, "switched": set()})
@@ -220,11 +227,11 @@ class Ref:
     f23 = frozenset()
 
 
-def oracle(ops, records):
+def oracle(ops, records, autoflush=True):
     """-> (key, step, why) or None"""
     from harness import lib_sess
 
-    ref = Ref()
+    ref = Ref(autoflush)
     prev = None
     for i, (tok, rec) in enumerate(zip(ops, records)):
         loaded = False
@@ -296,30 +303,33 @@ def gen_history(rng, world, n):
         active = [i for i, h in enumerate(world.handles) if h.is_active]
         r = rng.random()
         val += 1
-        if r < 0.18 or not world.objs:
+        if r < 0.17 or not world.objs:
             yield "A%d:%d:%d" % (len(world.objs), pk, val)
             pk += 1
-        elif r < 0.30 and (live or pend):
+        elif r < 0.29 and (live or pend):
             yield "M%d:%d" % (rng.choice(live + pend), val)
-        elif r < 0.38 and live:
+        elif r < 0.37 and live:
             yield "K%d:%d" % (rng.choice(live), pk)
             pk += 1
-        elif r < 0.46 and live:
+        elif r < 0.44 and live:
             yield "D%d" % rng.choice(live)
-        elif r < 0.56:
+        elif r < 0.53:
             yield "F"
-        elif r < 0.62 and live:
+        elif r < 0.59 and live:
             yield "L%d" % rng.choice(live)
-        elif r < 0.74:
+        elif r < 0.71:
             yield "n"
-        elif r < 0.80:
+        elif r < 0.77:
             yield "C"
-        elif r < 0.86:
+        elif r < 0.82:
             yield "R"
-        elif r < 0.87:
+        elif r < 0.83:
             yield "X"
-        elif r < 0.88:
+        elif r < 0.84:
             yield "b"
+        elif r < 0.865:
+            # a `with session.no_autoflush:` block begins / ends
+            yield "Z0" if world.sess.autoflush else "Z1"
         elif active:
             # mostly the innermost scope, sometimes an outer one
             h = active[-1] if rng.random() < 0.7 else rng.choice(active)
@@ -328,10 +338,10 @@ def gen_history(rng, world, n):
             yield "F"
 
 
-def run_history(rng, n, eoc):
+def run_history(rng, n, eoc, af=True):
     from harness import lib_sess
 
-    w = lib_sess.SWorld(eoc, "c33")
+    w = lib_sess.SWorld(eoc, "c33", af)
     ops, recs = [], []
     try:
         for tok in gen_history(rng, w, n):
@@ -342,10 +352,10 @@ def run_history(rng, n, eoc):
     return ops, recs
 
 
-def replay_ops(ops, eoc):
+def replay_ops(ops, eoc, af=True):
     from harness import lib_sess
 
-    return lib_sess.run_ops(ops, eoc, "c33r")
+    return lib_sess.run_ops(ops, eoc, "c33r", af)
 
 
 FIXED = [
@@ -359,6 +369,19 @@ FIXED = [
     "A0:1:10;C;n;M0:11;F;r1;L0",
     # F21: key switched in the transaction and again in a released savepoint, then rollback
     "A0:1:10;C;K0:5;F;n;K0:6;F;c2;R;L0",
+    # attribute assigned on an expired object without loading it (blind write) inside a
+    # savepoint that is rolled back; then flush / commit of the enclosing transaction
+    "A0:1:10;C;n;M0:11;r2;F;C;L0",
+    "A0:1:10;A1:2:20;C;L1;n;M0:11;M1:21;r2;C;L0;L1",
+]
+
+FIXED_AF = [
+    "A0:1:10;C;M0:11;A1:2:20;n;F;r2;L0;C;L0",
+    "A0:1:10;C;M0:11;A1:2:20;n;A2:3:30;F;r2;C;L0;L1",
+    "A0:1:10;C;Z0;M0:11;A1:2:20;n;F;r2;Z1;C;L0",
+    "A0:1:10;C;Z0;D0;n;A1:2:20;F;r2;C",
+    "A0:1:10;C;K0:5;n;M0:12;F;r2;L0;C",
+    "A0:1:10;C;Z0;M0:11;L0;n;M0:12;L0;c2;R;L0",
 ]
 
 
@@ -366,9 +389,9 @@ def run(ctx, deep=False):
     from harness import lib_sess
 
     ctx.rule = (
-        "histories (<=12 ops quick, <=18 thorough, plus 8 scripted) of add/modify/pk-switch/delete/flush/load/begin/begin_nested/"
+        "histories (<=12 ops quick, <=18 thorough, plus 16 scripted) of add/modify/pk-switch/delete/flush/load/begin/begin_nested/"
         "commit/rollback/close and SessionTransaction handle commit/rollback/close (mostly innermost, sometimes outer) on a real Session, "
-        "expire_on_commit on and off; every op's record compared with the Lean model and checked by the oracle; "
+        "expire_on_commit on and off x Session(autoflush=True|False) x no_autoflush blocks beginning and ending anywhere; every op's record compared with the Lean model and checked by the oracle; "
         "non-trivial = uses a savepoint together with a rollback"
     )
     ctx.trusted.append("sqlite3 (autocommit=False) and SQLite SAVEPOINT semantics (abstract table in the model)")
@@ -376,36 +399,45 @@ def run(ctx, deep=False):
     big = ctx.tier == "thorough" or deep
     cases, impl_out, reqs = [], [], []
 
-    def check(ops, recs, eoc):
-        case = {"ops": ops, "eoc": eoc}
-        ctx.case(str(eoc) + ";".join(ops), nontrivial=("n" in ops and any(t == "R" or t[0] == "r" for t in ops)))
+    def check(ops, recs, eoc, af=True):
+        case = {"ops": ops, "eoc": eoc, "af": af}
+        ctx.case(str(eoc) + str(af) + ";".join(ops), nontrivial=("n" in ops and any(t == "R" or t[0] == "r" for t in ops)))
         ctx.count("expire_on_commit=%s" % eoc)
+        ctx.count("autoflush=%s" % af)
         for t in ops:
-            ctx.count("op=" + t[0])
-        bad = oracle(ops, recs)
+            ctx.count("op=" + (t if t[0] == "Z" else t[0]))
+        bad = oracle(ops, recs, af)
         if bad:
-            ctx.violation(bad[0], {"ops": ops[: bad[1] + 1], "eoc": eoc}, bad[2])
+            ctx.violation(bad[0], {"ops": ops[: bad[1] + 1], "eoc": eoc, "af": af}, bad[2])
             if bad[0] in (KEY_F20, KEY_F21, KEY_F23):
                 # beyond a known defect the session is in a state the model does not follow
                 # (e.g. flushing an object whose row is gone): compare up to that step only
                 ops, recs = ops[: bad[1] + 1], recs[: bad[1] + 1]
-                case = {"ops": ops, "eoc": eoc}
+                case = {"ops": ops, "eoc": eoc, "af": af}
         cases.append(case)
         impl_out.append("|".join(recs) if recs else "-")
-        reqs.append("sesstxn run %d %s" % (1 if eoc else 0, ";".join(ops) if ops else "-"))
+        reqs.append("sesstxn runa %d %d %s" % (1 if eoc else 0, 1 if af else 0, ";".join(ops) if ops else "-"))
 
     for s in FIXED:
         for eoc in (True, False):
             ops = s.split(";")
             check(ops, replay_ops(ops, eoc), eoc)
+    # autoflush disabled (Session(autoflush=False) / a no_autoflush block) when begin_nested()
+    # meets unflushed work of the enclosing scope, a flush inside the savepoint, its rollback
+    for s in FIXED_AF:
+        for eoc in (True, False):
+            for af in (True, False):
+                ops = s.split(";")
+                check(ops, replay_ops(ops, eoc, af), eoc, af)
     n = 8000 if big else 1400
     maxlen = 18 if big else 12
     for i in range(n):
         eoc = ctx.rng.random() < 0.6
-        ops, recs = run_history(ctx.rng, ctx.rng.randint(3, maxlen), eoc)
-        check(ops, recs, eoc)
+        af = ctx.rng.random() < 0.65
+        ops, recs = run_history(ctx.rng, ctx.rng.randint(3, maxlen), eoc, af)
+        check(ops, recs, eoc, af)
         if i % 300 == 0:
-            ctx.sample({"expire_on_commit": eoc, "ops": ";".join(ops), "last": recs[-1]})
+            ctx.sample({"expire_on_commit": eoc, "autoflush": af, "ops": ";".join(ops), "last": recs[-1]})
     if ctx.driver_ok() and MODEL_READY:
         ctx.correspond("corr/c33:Session-vs-Model.Sess", cases, impl_out, ctx.driver(reqs))
 
@@ -416,10 +448,10 @@ MODEL_READY = True
 def search(ctx, broken):
     for d in ctx.disagreements:
         c = d["case"]
-        recs = replay_ops(c["ops"], c["eoc"])
-        bad = oracle(c["ops"], recs)
+        recs = replay_ops(c["ops"], c["eoc"], c.get("af", True))
+        bad = oracle(c["ops"], recs, c.get("af", True))
         if bad:
-            ctx.violation(bad[0], {"ops": c["ops"][: bad[1] + 1], "eoc": c["eoc"]}, bad[2])
+            ctx.violation(bad[0], {"ops": c["ops"][: bad[1] + 1], "eoc": c["eoc"], "af": c.get("af", True)}, bad[2])
     sub = type(ctx)(ctx.pid, "thorough", ctx.seed + 1, ctx.level)
     run(sub, deep=True)
     ctx.violations.extend(sub.violations)
@@ -427,9 +459,9 @@ def search(ctx, broken):
 
 def replay(ctx, obj):
     c = obj["case"]
-    recs = replay_ops(c["ops"], c["eoc"])
-    bad = oracle(c["ops"], recs)
-    print("replay C33 expire_on_commit=%s ops=%s" % (c["eoc"], ";".join(c["ops"])))
+    recs = replay_ops(c["ops"], c["eoc"], c.get("af", True))
+    bad = oracle(c["ops"], recs, c.get("af", True))
+    print("replay C33 expire_on_commit=%s autoflush=%s ops=%s" % (c["eoc"], c.get("af", True), ";".join(c["ops"])))
     for t, r in zip(c["ops"], recs):
         print("  %-9s %s" % (t, r))
     print("oracle:", bad)
